@@ -79,6 +79,10 @@ def select(harnesses, prop, tier, only=None):
                 continue
             if h.tier == "thorough" and tier != "thorough":
                 continue
+            if h.tier == "extended" and not os.environ.get("VERIF_EXTENDED"):
+                # harnesses that are known not to finish within their cap on this machine are kept
+                # in the repository (and named in DESIGN.md) but are not part of any registered tier
+                continue
             sel.append(h)
             break
     # thorough always includes the quick set
